@@ -224,6 +224,15 @@ class CHECK(Check):
 
     def setup(self, tier, seed):
         self.tier, self.seed = tier, seed
+        # two-step histories over the rich planner corpus: references first, each in a process forked from this still clean one
+        from vf import histories
+        import mindsdb_sql.planner  # noqa: F401  (warm imports only - nothing is planned in this process before the references exist)
+        self.hcorpus = histories.corpus(tier)
+        self.href = histories.references(self.hcorpus)
+        if tier == 'quick':
+            keep = histories.select_quick(self.hcorpus, self.href)
+            self.hcorpus = [self.hcorpus[i] for i in keep]
+            self.href = [self.href[i] for i in keep]
         # warm imports (SLY builds the tables at import time; that must not run under the scheduler)
         env = Env()
         self.reference = {}
@@ -255,6 +264,9 @@ class CHECK(Check):
         seeds = list(range(4)) if self.tier == 'quick' else list(range(32)) + ['random', 'random']
         out.append(('seeds', tuple(seeds)))
         out.append(('free', 16))
+        for i in range(len(self.hcorpus)):
+            out.append(('pairs', 'process', i))
+            out.append(('pairs', 'reuse', i))
         return out
 
     # ------------------------------------------------------------------ schedules
@@ -268,6 +280,36 @@ class CHECK(Check):
             return self.run_seeds(res, case[1])
         if case[0] == 'free':
             return self.run_free(res, case[1])
+        if case[0] == 'pairs':
+            return self.run_pairs(res, case[1], case[2])
+
+    def run_pairs(self, res, kind, i):
+        """all two-step histories (first = corpus[i], second = every corpus entry): process history with fresh planners, or one reused
+        QueryPlanner object.  The observation of the second call must equal its reference (computed before anything else ran)."""
+        from vf import histories
+        first = self.hcorpus[i]
+        bad = None
+        for j, second in enumerate(self.hcorpus):
+            planner = histories.new_planner() if kind == 'reuse' else None
+            o1 = histories.observe(first, planner)[0]
+            o2 = histories.observe(second, planner)[0]
+            res.count('pair_histories')
+            if o1 != self.href[i] and bad is None:
+                bad = ('first', i, i, o1, self.href[i])
+            if o2 != self.href[j] and bad is None:
+                bad = ('second', i, j, o2, self.href[j])
+        res.key(('pairs', kind, i))
+        if bad is not None:
+            which, i, j, got, want = bad
+            hist = [self.hcorpus[i]] if which == 'first' else [self.hcorpus[i], self.hcorpus[j]]
+            conf = histories.confirm_in_fresh_process(kind, hist, ROOT, REPO)
+            if conf != tuple(want) and list(conf) != list(want):
+                res.violation(f'history-changes-result|{kind}|two-step', f'{kind} history {hist!r}: the last call observed {str(conf)[:400]!r} instead of {str(want)[:400]!r} '
+                                                                      f'(reproduced in a fresh interpreter running only this history)')
+            else:
+                res.violation(f'history-changes-result|{kind}|longer', f'after the calls made earlier in this worker and then {hist!r} the last call observed {str(got)[:400]!r} '
+                                                                    f'instead of {str(want)[:400]!r} (the two-step history alone does not reproduce it)')
+        return res
 
     def run_sched(self, res, case):
         from vf import sched
@@ -444,17 +486,18 @@ class CHECK(Check):
         c = agg['counters']
         return {'exhaustive': c.get('capped_explorations', 0) == 0,
                 'states': len(agg['cover'].get('global_state_digests', ())) + len(agg['cover'].get('distinct_outcomes', ())),
-                'transitions': c.get('schedules', 0) + c.get('history_transitions', 0),
+                'transitions': c.get('schedules', 0) + c.get('history_transitions', 0) + 2 * c.get('pair_histories', 0),
                 'traces_validated_against_impl': c.get('schedules', 0) + c.get('histories', 0),
                 'schedules_explored': c.get('schedules', 0), 'max_scheduling_points_in_one_execution': max(agg['cover'].get('max_points', {0})),
                 'distinct_thread_outcomes': len(agg['cover'].get('distinct_outcomes', ())),
                 'history_call_pairs_covered': len(agg['cover'].get('history_edges', ())),
+                'two_step_histories_over_planner_corpus': c.get('pair_histories', 0), 'planner_corpus_size': len(self.hcorpus),
                 'globals_changed_by_calls': sorted(str(x) for x in agg['cover'].get('globals_changed_by_a_call', ()))[:40],
                 'hash_seed_sweep_is_exhaustive': False, 'free_running_pass_is_sampling': True,
                 'operations': list(OPS), 'pairs': [list(p) for p in PAIRS],
                 'rule': 'schedules: every pair x all schedules with <= 1 preemption at call granularity, LINE granularity for 9 pairs, bound 2 at coarse granularity for 3 '
                         'pairs (thorough: bound 2 for all pairs, triples at bound 1); histories: all call sequences of depth 3 (thorough 4) over 21 operations with a shared '
-                        'environment; seeds 0..3 (thorough 0..31 + 2 random); states = distinct global-state digests + distinct thread outcome vectors'}
+                        'environment; seeds 0..3 (thorough 0..31 + 2 random); all ordered pairs of a planner corpus as process histories and on one reused QueryPlanner; states = distinct global-state digests + distinct thread outcome vectors'}
 
     def describe_case(self, case):
         return [str(x) for x in case]
